@@ -2625,10 +2625,12 @@ func (p *Parser) testClause(s *Stmt) {
 		p.followErrExp(tc.Left, dblLeftBrack)
 	}
 	tc.Right = p.pos
+	// Leave the test state before reading past "]]", so that the token which
+	// follows is lexed like any other and a newline starts pending heredocs.
+	p.postNested(old)
 	if _, ok := p.gotRsrv("]]"); !ok {
 		p.matchingErr(tc.Left, dblLeftBrack, dblRightBrack)
 	}
-	p.postNested(old)
 	s.Cmd = tc
 }
 
